@@ -1,0 +1,13 @@
+//go:build verif
+
+// Verification hook (build tag "verif") for the request-serving checks of /verif (properties C03 / C06 / C14).
+
+package mcp
+
+// VerifWithSessionExpiry makes the Streamable HTTP server keep its sessions in a session manager whose expiry time is
+// the given number of seconds (the library has no public option for it: the default is one hour).
+func VerifWithSessionExpiry(seconds int) ServerOption {
+	return func(s *Server) {
+		s.config.sessionManager = newSessionManager(seconds)
+	}
+}
